@@ -317,6 +317,9 @@ func main() {
 			run = append(run, b)
 		}
 	}
+	// the full-plan configuration runs last: every configuration gets an equal share of the
+	// remaining budget, so it inherits whatever the cheap ones did not use
+	sort.SliceStable(run, func(i, j int) bool { return !run[i].Cfg.Full && run[j].Cfg.Full })
 	// record which v1 configurations generate the same federation.go as their v2 counterpart
 	identical := []string{}
 	for _, r := range run {
